@@ -91,7 +91,8 @@ def _check_program(ctx, pseed, depth, n_values=4):
             ctx.cover("valuegen_fail", type(e).__name__ + ":" + str(e)[:60])
             continue
         classes |= d.classes
-        wit = dict(wit0, value_seed=vseed, value=repr(gen_spec.canon(v))[:600])
+        canon_v = gen_spec.canon(v)          # taken BEFORE any write: writing must not alter the caller's value
+        wit = dict(wit0, value_seed=vseed, value=repr(canon_v)[:600])
         for endian in ("<", ">"):
             ctx.ev()
             w = se.BufferWriter(endian)
@@ -101,6 +102,11 @@ def _check_program(ctx, pseed, depth, n_values=4):
                 ctx.violation("write-raises", "writing an in-domain value raised", dict(wit, endian=endian, exc=repr(e)[:300]))
                 break
             data = w.copy_buffer()
+            ctx.count("input_unchanged_checks")
+            if gen_spec.canon(v) != canon_v:
+                ctx.violation("write-mutates-value", "writing a value changed the value the caller passed in",
+                              dict(wit, endian=endian, after=repr(gen_spec.canon(v))[:600]))
+                break
             if size is not None:
                 ctx.count("fixed_size_checks")
                 if len(data) != size:
@@ -128,7 +134,7 @@ def _check_program(ctx, pseed, depth, n_values=4):
                         ctx.violation("framing" + (":trailing" if tr else ""), "reader did not consume exactly the bytes written",
                                       dict(wit, endian=endian, pod=pod, consumed=r.tell(), written=len(data), trailing=len(tr)))
                         good = False
-                    if not pod and canon_out != gen_spec.canon(v):
+                    if not pod and canon_out != canon_v:
                         ctx.violation("value-differs", "read(write(v)) != v", dict(wit, endian=endian, got=repr(canon_out)[:600],
                                                                                    trailing=len(tr)))
                         good = False
